@@ -359,3 +359,22 @@ def ascii_lower(c):
 def py_repr(x):
     """repr(x): for str/float/int the Python literal that evaluates back to x (language guarantee)."""
     return repr(x)
+
+
+_INT_WS = "".join(c for c in _PY_WS if not ("\x1c" <= c <= "\x1f"))
+
+
+def py_int_strip(s):
+    """The text int() looks at after skipping its whitespace (no U+001C..U+001F, unlike str.strip)."""
+    return s.strip(_INT_WS)
+
+
+def int_padded(s, w1, ws_pattern, w2, *tokens):
+    import re
+
+    vals = list(tokens[0::2])
+    pats = list(tokens[1::2])
+    pre = s == w1 + "".join(vals) + w2 and re.fullmatch(ws_pattern, w1) and re.fullmatch(ws_pattern, w2)
+    for v, p in zip(vals, pats):
+        pre = pre and (p is None or re.fullmatch(p, v) is not None)
+    return (not pre) or py_int_strip(s) == "".join(vals)
